@@ -81,7 +81,7 @@ func c16(r *core.Run) {
 		// same value
 		r.Check(core.SameValue(in.Args[2], out.Args[2]), "C16/R1", key+":debit=credit", p.InstrPos(out.Instr),
 			"debit and POL credit are the same SSA value", "the amount credited to the POL account is not the value debited from the registrant")
-		ap := p.ProvAt(in.Args[2], "", in.Instr)
+		ap := p.ResolveToEntry(p.ProvAt(in.Args[2], "", in.Instr), h.Fn) // the transfer may sit in a helper
 		okYears := p.HasMsgField(ap, h, "Years")
 		okCost := ap.Any(func(a core.Atom) bool { return a.Kind == "global" && a.Name == "x/rns/types.TLDCost" })
 		okNoOther := true
